@@ -525,6 +525,31 @@ def well_known_call_programs(tuple_args_only=False):
     return out
 
 
+def batch_programs():
+    """Containers filled in one batch of 1 .. 40 items (DICT / SETITEMS / LIST / APPENDS / TUPLE) on empty and non-empty targets."""
+    out = []
+    for n in (1, 2, 7, 8, 9, 10, 16, 17, 33, 40):
+        pairs = b"".join(BININT1(i) + BININT1(100 + i) for i in range(n))
+        items = b"".join(BININT1(i) for i in range(n))
+        out += [b"}(" + pairs + b"u.", b"(" + pairs + b"d.", b"}K\xffNs(" + pairs + b"u.", b"](" + items + b"e.", b"(" + items + b"l.",
+                b"(" + items + b"t.", b"]K\xffa(" + items + b"e.", b"\x80\x02}q\x00(" + pairs + b"uh\x00\x86.",
+                b"](}(" + pairs + b"ue.", b"cm\nn\n(}(" + pairs + b"utR."]
+    return out
+
+
+def sloppy_text_programs():
+    """Text arguments with blanks, signs, CR, leading zeros, exponents: what CPython's int() / float() tolerate and Go's parsers may not -
+    whatever the decoder does with them, only documented types may come out and every reader must agree."""
+    out = []
+    for arg in (b" 5", b"5 ", b"\t-7", b"5\r", b"+5", b"05", b"-0", b" ", b"", b"0x10", b"1_0", b"5L", b"1e3", "\u0967".encode()):
+        out += [b"I" + arg + b"\n.", b"L" + arg + b"L\n.", b"L" + arg + b"\n.", b"F" + arg + b"\n.", b"(I" + arg + b"\nI1\nt.", b"}I" + arg + b"\nNs."]
+    for arg in (b"1.5 ", b" 1.5", b"1.5\r", b"+1.5", b"1.5e", b"inf", b"-Inf", b"nan", b"NaN", b"infinity", b"1,5", b".5", b"5."):
+        out += [b"F" + arg + b"\n."]
+    for key in (b"01", b"007", b" 1", b"1 ", b"+1", b"-1", b"1\r", b"0x1", b""):
+        out += [b"I5\np" + key + b"\n0g" + key + b"\n.", b"I5\np1\n0g" + key + b"\n.", b"I5\np" + key + b"\n0g1\n.", b"I5\nq\x010g" + key + b"\n."]
+    return out
+
+
 def pad_to(n):
     """Balanced, harmless instructions of total length n >= 2 (push None / a small int, pop it again)."""
     if n % 2:
